@@ -39,6 +39,8 @@ func (cp *CachedPlanner) WithPlannerExecutor(e Planner) *CachedPlanner {
 
 func (cp *CachedPlanner) hash(ctx *PlanningContext) hashKey {
 	s := format.NewBufferedFormatter().FormatSelectionSet(ctx.Operation.SelectionSet)
+	// a plan carries the type and the name of its operation, so they belong to the key
+	s = string(ctx.Operation.Operation) + " " + ctx.Operation.Name + "\n" + s
 	sha1 := sha1.Sum([]byte(s))
 	return sha1
 }
